@@ -21,6 +21,9 @@ native_impl={
 'vxCleanPath':'return s != "" && filepath.Clean(s) == s',
 'vxContains':'return strings.Contains(s, sub)','vxHasPrefix':'return strings.HasPrefix(s, p)','vxHasSuffix':'return strings.HasSuffix(s, p)',
 'vxIsSym':'return false',
+'vxRun':'kind := "returned"; func() { defer func() { if r := recover(); r != nil { kind = "panic" } }(); f() }(); return kind',
+'vxRunCode':'return 0',
+'vxRunMsg':'return ""',
 'vxGet':'return vxPlanInt("param." + k)',
 'vxSet':'',
 'vxTraceMode':'','vxTraceStatFork':'','vxMapOrder':'','vxMapOrderOff':'','vxMapOrderReverse':'','vxPreemptBudget':'','vxYield':'','vxClockSymbolic':'','vxCmdFree':'','vxSetEnv':'os.Setenv(k, v)',
